@@ -1,8 +1,10 @@
 """C11 - stateless pipelines are record-local"""
 from ..scen_stages import stage_steps
 from ..scen_readinput import read_input
+from ..scen_misc import regex_cache
 
 
 def run(ctx):
     stage_steps(ctx, stages=['Filter', 'Splitter', 'Selection', 'PreSet'], want=('frame', 'contract'))
     read_input(ctx, ['read.one_context_per_value', 'read.locations'])
+    regex_cache(ctx)
